@@ -6,6 +6,7 @@ import (
 	"github.com/plgd-dev/go-coap/v3/message"
 	"github.com/plgd-dev/go-coap/v3/message/codes"
 	"github.com/plgd-dev/go-coap/v3/message/pool"
+	udpCoder "github.com/plgd-dev/go-coap/v3/udp/coder"
 )
 
 // PoolTracker observes the life cycle of pooled messages (hook H-POOL).
@@ -64,6 +65,9 @@ func (p *PoolTracker) onPut(m any) {
 	msg.SetMessageID(poisonMID)
 	msg.SetType(message.Confirmable) // keeps the poisoned content encodable, so that a read-after-release shows on the wire
 	msg.SetSequence(poisonSeq)
+	// the object's marshal buffer is part of it: overwrite it with the encoding of the poison, so that a slice the
+	// library kept into that buffer (a cached reply, a retransmission copy) shows the poison when it is used
+	_, _ = msg.MarshalWithEncoder(udpCoder.DefaultCoder)
 	msg.SetModified(false)
 }
 
